@@ -663,7 +663,29 @@ func execOp(s *Sexp) string {
 			if err != nil {
 				return "err"
 			}
-			dst, err := c.newValue(prior)
+			// (decm … PRIOR stale): the target's slices have stale elements in their spare capacity;
+			// (decm … PRIOR stale0): additionally the target's top-level slice fields are cut to
+			// length 0 (the `v = v[:0]` idiom) — the op's PRIOR is then what remains visible
+			mode := ""
+			if len(s.List) > 6 {
+				mode = s.List[6].Atom
+			}
+			staleCapacity = mode != ""
+			var dst reflect.Value
+			if mode == "stale0" && len(s.List) > 7 {
+				full, perr := parseVal(s.List[7])
+				if perr != nil {
+					staleCapacity = false
+					return "bad-op"
+				}
+				dst, err = c.newValue(full)
+				if err == nil {
+					truncateSlices(dst.Elem())
+				}
+			} else {
+				dst, err = c.newValue(prior)
+			}
+			staleCapacity = false
 			if err != nil {
 				return "bad-op " + err.Error()
 			}
@@ -791,8 +813,8 @@ func execOp(s *Sexp) string {
 			lastHeaderMsg = badSliceHeaders(dst.Elem())
 			return "ok " + FromReflect(dst.Elem(), td2).String()
 		})
-	case "xdec":
-		if len(s.List) != 5 {
+	case "xdec", "xdecm":
+		if (s.head() == "xdec" && len(s.List) != 5) || (s.head() == "xdecm" && len(s.List) < 6) {
 			return "bad-op"
 		}
 		pe, _, e1 := instance(s.List[1])
@@ -822,6 +844,18 @@ func execOp(s *Sexp) string {
 				return "err"
 			}
 			dst := reflect.New(rt)
+			if s.head() == "xdecm" {
+				prior, perr := parseVal(s.List[5])
+				if perr != nil {
+					return "bad-op"
+				}
+				staleCapacity = len(s.List) > 6
+				perr = prior.ToReflect(dst.Elem(), td)
+				staleCapacity = false
+				if perr != nil {
+					return "bad-op " + perr.Error()
+				}
+			}
 			if err := pd.Unmarshal(data, dst.Interface()); err != nil {
 				return "err"
 			}
@@ -865,4 +899,24 @@ func execOp(s *Sexp) string {
 		})
 	}
 	return "bad-op unknown " + h
+}
+
+// truncateSlices cuts the slice itself (top level) or every slice-typed field of a
+// struct (one level) to length 0, keeping capacity and contents.
+func truncateSlices(rv reflect.Value) {
+	cut := func(f reflect.Value) {
+		if f.Kind() == reflect.Slice && !f.IsNil() && f.CanSet() {
+			f.Set(f.Slice(0, 0))
+		}
+	}
+	switch rv.Kind() {
+	case reflect.Slice:
+		cut(rv)
+	case reflect.Struct:
+		for i := 0; i < rv.NumField(); i++ {
+			if rv.Type().Field(i).IsExported() {
+				cut(rv.Field(i))
+			}
+		}
+	}
 }
